@@ -9,7 +9,8 @@ import engine
 
 LEVEL = "proof"
 ENGINE_PROPS = [("Props_C02.v", ["C02_sound", "C02_sound_rows", "C02_sound_merged", "C02_sound_created",
-                                 "C02_define_no_dup_partial"])]
+                                 "C02_define_no_dup_partial"]),
+                ("Props_Least.v", ["Least_close_least", "Least_hom_complete"])]
 VARIANTS = ["canon", "closes"]
 ISO_WHY = {1: "caller-created elements that the reference keeps apart/equal are equal/apart in the implementation (or vice versa)",
            2: "a function value is forced to two different elements: the implementation's model is not a functional image of the free model",
